@@ -54,7 +54,7 @@ func (c *conn) receiveOpen(msg pmpx.Message) status.Status {
 	// Duplicates are impossible, but still check for them.
 	ch := openChannel(c, c.client, m)
 	_, exists := c.channels.GetOrSet(id, ch)
-	verifpoint.Point("conn.recv.open", verifpoint.Ptr(ch), verifpoint.B(exists), 0)
+	verifpoint.Point("conn.recv.open", verifpoint.Addr(ch), verifpoint.B(exists), 0)
 	if exists {
 		ch.Free()
 		ch.free()
@@ -77,7 +77,7 @@ func (c *conn) receiveClose(msg pmpx.Message) status.Status {
 	if !ok {
 		return status.OK
 	}
-	verifpoint.Point("conn.recv.close", verifpoint.Ptr(ch), 0, 0)
+	verifpoint.Point("conn.recv.close", verifpoint.Addr(ch), 0, 0)
 	defer ch.free()
 
 	return ch.receive(msg)
@@ -91,7 +91,7 @@ func (c *conn) receiveData(msg pmpx.Message) status.Status {
 	if !ok {
 		return status.OK
 	}
-	verifpoint.Point("conn.recv.lookup", verifpoint.Ptr(ch), 12, 0)
+	verifpoint.Point("conn.recv.lookup", verifpoint.Addr(ch), 12, 0)
 	return ch.receive(msg)
 }
 
@@ -103,7 +103,7 @@ func (c *conn) receiveWindow(msg pmpx.Message) status.Status {
 	if !ok {
 		return status.OK
 	}
-	verifpoint.Point("conn.recv.lookup", verifpoint.Ptr(ch), 13, 0)
+	verifpoint.Point("conn.recv.lookup", verifpoint.Addr(ch), 13, 0)
 	return ch.receive(msg)
 }
 
